@@ -59,7 +59,7 @@ def lint(project, source, filename=None, debug=False):
             #     use_name(sname)
             #     result.append(('E02', 'Undefined name: {}'.format(name.id),
             #                    location[0], location[1], flow))
-            if sname.name == 'locals' and sname.location == (0, 0):
+            if sname.name == 'locals' and getattr(sname, 'location', None) == (0, 0):
                 for n in itervalues(flow.names_at(location)):
                     if getattr(n, 'scope', None) is flow.scope:
                         use_name(n)
